@@ -7,7 +7,7 @@ RULE = ("API table (~150 entry points with a variable-length or pointer argument
         "with every key length), generichash (outlen/keylen/salt/personal, multipart), shorthash x2, onetimeauth (+multipart), HKDF, kdf, sign "
         "(combined/open valid, corrupt, short/detached/multipart), secretstream push/pull valid/corrupt/short, utils, hex and 4 Base64 "
         "codecs (exact, short capacity, short text), pad/unpad, RNG, from_string with context = length, pwhash/scrypt with pwlen/outlen; all "
-        "fixed-size curve/scalar/kx/keygen APIs): EVERY length 0..300 (thorough 0..1100) + 26 boundary lengths to 1025, AD length "
+        "fixed-size curve/scalar/kx/keygen APIs): EVERY length 0..300 (thorough 0..1100) + 26 boundary lengths to 1025 + {4095, 4097, 16385, 65537}, AD length "
         "3L mod 41; alignment offsets: all 16 at the boundary lengths (thorough: at every length <= 130), two elsewhere; every argument in an "
         "exact-size heap block (pass 1: ASan red zone starts at the first byte past it) and ending at a PROT_NONE page (pass 2). attacker "
         "text: every prefix and every 1-mutation (10 letters: replace/insert/delete) of Argon2id, Argon2i and $7$ hash strings and 15 "
